@@ -19,7 +19,10 @@ def refVEnc8 (r0 r1 r2 r3 : BitVec 32) (sk : BitVec 64) : BitVec 32 × BitVec 32
 
 
 theorem v256p_enc_round_ref (r0 r1 r2 r3 : BitVec 32) (sk : BitVec 64) : v256p_enc_round r0 r1 r2 r3 sk = refVEnc8 r0 r1 r2 r3 sk := by
-  simp only [v256p_enc_round, refVEnc8, v256p_sbox, rotl32, gen_unfold]
+  first
+  | (simp only [v256p_enc_round, refVEnc8, v256p_sbox, rotl32, gen_unfold]; done)
+  | (refine Prod.ext ?_ (Prod.ext ?_ (Prod.ext ?_ ?_)) <;>
+      (bv_bits 32 <;> ((try simp [v256p_enc_round, refVEnc8, v256p_sbox, rotl32, gen_unfold]); (try ac_rfl))))
 
 def refVDec8 (r0 r1 r2 r3 : BitVec 32) (sk : BitVec 64) : BitVec 32 × BitVec 32 × BitVec 32 × BitVec 32 :=
   let n2 := r3 ^^^ r1
@@ -29,7 +32,10 @@ def refVDec8 (r0 r1 r2 r3 : BitVec 32) (sk : BitVec 64) : BitVec 32 × BitVec 32
    v256p_inv_sbox (rotl32 n2 16 ^^^ 0x2#32), v256p_inv_sbox (rotl32 n3 8))
 
 theorem v256p_dec_round_ref (r0 r1 r2 r3 : BitVec 32) (sk : BitVec 64) : v256p_dec_round r0 r1 r2 r3 sk = refVDec8 r0 r1 r2 r3 sk := by
-  simp only [v256p_dec_round, refVDec8, v256p_inv_sbox, rotl32, gen_unfold]
+  first
+  | (simp only [v256p_dec_round, refVDec8, v256p_inv_sbox, rotl32, gen_unfold]; done)
+  | (refine Prod.ext ?_ (Prod.ext ?_ (Prod.ext ?_ ?_)) <;>
+      (bv_bits 32 <;> ((try simp [v256p_dec_round, refVDec8, v256p_inv_sbox, rotl32, gen_unfold]); (try ac_rfl))))
 
 syntax "vec8_bits" num : tactic
 macro_rules
